@@ -221,6 +221,7 @@ func runC14(p *Prog, r *Report) {
 	localConfigNameRule(p, r, "C14.R11")
 	patternsUnmodifiedRule(p, r, "C14.R12")
 	localsKeyRule(p, r, "C14.R13")
+	contextNamesAlwaysConsultedRule(p, r, "C14.R14")
 }
 
 // guardSpec: a validation that must exist in method.Parse as `if COND { return nil, <error> }`.
